@@ -579,7 +579,18 @@ func (g *chainGen) restart() {
 
 // genChain makes one `chain` line. profile: 0 extend-only without flush ops, 1 mixed, 2 reorg heavy,
 // 3 re-creation heavy (duplicate coinbases, spends, flushes).
-func genChain(r *core.Rand, profile int, maxOps int, long bool) (string, string, bool) {
+// genChain never lets a panic of the real code it calls while generating (transaction
+// hashing through the builder) escape: such a line is replaced by a trivial one.
+func genChain(r *core.Rand, profile int, maxOps int, long bool) (line string, class string, nt bool) {
+	defer func() {
+		if recover() != nil {
+			line, class, nt = "C03 chain 0:1:0 O", "chain-gen-panic", false
+		}
+	}()
+	return genChainRaw(r, profile, maxOps, long)
+}
+
+func genChainRaw(r *core.Rand, profile int, maxOps int, long bool) (string, string, bool) {
 	c := cfg{maturity: int(r.Pick(1, 1, 1, 2, 3))}
 	switch r.Intn(4) {
 	case 0:
